@@ -38,11 +38,19 @@ func c09sched(c *core.Ctx) {
 		raw      []byte // sent after the segments
 		graceful bool   // the tail ends with a DISCONNECT packet
 		data     int    // QoS 0 publishes on "q" before the end
+		// halfDead: the client has stopped receiving before it sends the tail (CloseRead: the
+		// broker's answers fail with "broken pipe", the client's bytes still arrive)
+		halfDead bool
 	}
 	q0 := func(pl string) *refcodec.Packet {
 		return &refcodec.Packet{Type: refcodec.PUBLISH, Topic: []byte("q"), Payload: []byte(pl)}
 	}
 	disc := &refcodec.Packet{Type: refcodec.DISCONNECT}
+	ping := &refcodec.Packet{Type: refcodec.PINGREQ}
+	subx := &refcodec.Packet{Type: refcodec.SUBSCRIBE, ID: 21, Topics: [][]byte{[]byte("x/own")}, QoSs: []byte{1}}
+	q1 := func(pl string) *refcodec.Packet {
+		return &refcodec.Packet{Type: refcodec.PUBLISH, Topic: []byte("q"), QoS: 1, ID: 22, Payload: []byte(pl)}
+	}
 	tails := []tail{
 		{name: "DISCONNECT and close at once", segments: [][]*refcodec.Packet{{disc}}, graceful: true},
 		{name: "PUBLISH+DISCONNECT in one segment and close at once", segments: [][]*refcodec.Packet{{q0("d1"), disc}}, graceful: true, data: 1},
@@ -52,6 +60,14 @@ func c09sched(c *core.Ctx) {
 		{name: "PUBLISH, reserved packet type", segments: [][]*refcodec.Packet{{q0("d1")}}, raw: []byte{0xF0, 0x00}, data: 1},
 		{name: "PUBLISH, DISCONNECT header announcing a body that never comes, close at once", segments: [][]*refcodec.Packet{{q0("d1")}}, raw: []byte{0xE0, 0x02}, data: 1},
 		{name: "PUBLISH, DISCONNECT with a reserved flag, close at once", segments: [][]*refcodec.Packet{{q0("d1")}}, raw: []byte{0xE1, 0x00}, data: 1},
+		// packets the broker has to answer on a connection it cannot write to any more:
+		// the failing answer is no reason to overlook the DISCONNECT behind it
+		{name: "half-dead client: PINGREQ+DISCONNECT in one segment and close", segments: [][]*refcodec.Packet{{ping, disc}}, graceful: true, halfDead: true},
+		{name: "half-dead client: PINGREQ, PINGREQ, DISCONNECT in three segments and close", segments: [][]*refcodec.Packet{{ping}, {ping}, {disc}}, graceful: true, halfDead: true},
+		// (whether a QoS 1 PUBLISH whose PUBACK cannot be written is forwarded is not C09's
+		// business: the number of forwarded publishes is not checked for that tail, data: -1)
+		{name: "half-dead client: SUBSCRIBE+QoS 1 PUBLISH+DISCONNECT and close", segments: [][]*refcodec.Packet{{subx, q1("d1"), disc}}, graceful: true, data: -1, halfDead: true},
+		{name: "half-dead client: PINGREQ and close", segments: [][]*refcodec.Packet{{ping}}, halfDead: true},
 	}
 	for _, tl := range tails {
 		for _, wq := range []byte{0, 1, 2} {
@@ -88,6 +104,9 @@ func c09sched(c *core.Ctx) {
 					return
 				}
 				vsched.Mark()
+				if tl.halfDead {
+					xc.vc.CloseRead()
+				}
 				for _, seg := range tl.segments {
 					var b []byte
 					for _, p := range seg {
@@ -116,7 +135,7 @@ func c09sched(c *core.Ctx) {
 						return
 					}
 				}
-				if n := len(publishesOn(got, "q")); n != tl.data {
+				if n := len(publishesOn(got, "q")); tl.data >= 0 && n != tl.data {
 					vsched.Failf("the client sent %d complete QoS 0 PUBLISH before the end, the subscriber received %d: %s", tl.data, n, Describe(got))
 					return
 				}
